@@ -13,11 +13,12 @@
    the [tsz] component of the configuration, lies in [1, n) for the n examples
    at hand; it is proved for the exact rational value for every n
    (C16_target_size_in_range) and for the binary64 evaluation of the C++
-   expression for n < 5000 (the two ..._binary64_partial theorems, the only
-   ones that mention Flocq and hence print its four standard-library axioms).
+   expression for every n < 2^53 (C16_target_size_binary64; the three
+   ..._binary64 theorems are the only ones that mention Flocq and hence print
+   its four standard-library axioms).
    Nothing but statements lives in this file. *)
 From Coq Require Import ZArith List Bool Permutation.
-From VV Require Import Valid.ValidDefs Valid.ValidProofs Valid.ValidTarget Valid.ValidTargetProofs.
+From VV Require Import Valid.ValidDefs Valid.ValidProofs Valid.ValidTarget Valid.ValidTargetProofs Valid.ValidTargetInst.
 Import ListNotations.
 Local Open Scope Z_scope.
 
@@ -142,22 +143,31 @@ Theorem C16_target_size_in_range : forall s, 2 <= s -> 1 <= target_q s < s.
 Proof. exact target_q_ok. Qed.
 Print Assumptions C16_target_size_in_range.
 
-(* FULL statement wanted: forall s, 2 <= s < 2^53 -> tsz_f64 s = target_q s  (the binary64
-   evaluation of the C++ expression truncates to the exact rational value), hence
-   non-emptiness for the code's own arithmetic at every size.  PROVED: sizes below 5000 (finite
-   check by vm_compute lifted to the quantifier); missing: the Flocq rounding argument for
-   larger sizes (python doubles agree up to 200000 on every run, 3*10^6 in thorough). *)
-Theorem C16_target_size_binary64_partial : forall s, 0 <= s < 5000 -> tsz_f64 s = target_q s.
-Proof. exact tsz_f64_agrees_partial. Qed.
-Print Assumptions C16_target_size_binary64_partial.
+(* H_target discharged for the code's own arithmetic: the binary64 evaluation (Flocq) of
+     ratio = std::min(0.6, 0.2 + 100.0 / (n + 100.0));  target_size = std::max(1.0, n * ratio)
+   cast to ptrdiff_t lies in [1, n) for every admissible size (n < 2^53: static_cast<double>(n)
+   is exact).  [tsz_f64] is the function the extracted model runs. *)
+Theorem C16_target_size_binary64 : forall n, 2 <= n < 2 ^ 53 -> 1 <= tsz_f64 n < n.
+Proof. exact tsz_f64_in_range. Qed.
+Print Assumptions C16_target_size_binary64.
 
-Theorem C16_shake_nonempty_both_binary64_partial : forall (P : Type) p g ops (st0 : state P) ds tr ds',
-  run_ops P (mkCfg p g tsz_f64) ops st0 ds = Some (tr, ds') -> 2 <= population P st0 < 5000 ->
+(* ... hence, with no hypothesis on the target size: every reshuffle of any history leaves both
+   sets non-empty and restarts the counters of the selected examples *)
+Theorem C16_shake_nonempty_both_binary64 : forall (P : Type) p g ops (st0 : state P) ds tr ds',
+  run_ops P (mkCfg p g tsz_f64) ops st0 ds = Some (tr, ds') -> 2 <= population P st0 < 2 ^ 53 ->
   Forall2 (fun o sr => reshuffles (mkCfg p g tsz_f64) o = true ->
              training (fst sr) <> nil /\ validation (fst sr) <> nil
              /\ Forall (fun e => diff e = 0 /\ age e = 1) (training (fst sr))) ops tr.
-Proof. exact reshuffles_binary64_partial. Qed.
-Print Assumptions C16_shake_nonempty_both_binary64_partial.
+Proof. exact reshuffles_binary64. Qed.
+Print Assumptions C16_shake_nonempty_both_binary64.
+
+(* ... and every dss history is defined for all outcomes of the draws *)
+Theorem C16_dss_history_defined_binary64 : forall (P : Type) p g ops (st : state P) bs,
+  forallb is_dss_op ops = true -> g <> 0 -> 2 <= population P st < 2 ^ 53 ->
+  length bs = (Z.to_nat (population P st) * n_reshuffles (mkCfg p g tsz_f64) ops)%nat ->
+  exists tr, run_ops P (mkCfg p g tsz_f64) ops st (map DBool bs) = Some (tr, nil).
+Proof. exact dss_history_defined_binary64. Qed.
+Print Assumptions C16_dss_history_defined_binary64.
 
 (* src_search::tune_parameters (repaired tree) gives an open period / percentage
    its default when the matching strategy is active and keeps user settings *)
